@@ -312,7 +312,7 @@ func c20Blank(c *Ctx, r *RNG) {
 		err := keep.args.BlockingReportNewValue(bctx, keep.val())
 		return err == nil || !errors.Is(err, context.DeadlineExceeded)
 	}
-	accepted := 0   // A of the last accepted report of the Blank's slot
+	accepted := 0    // A of the last accepted report of the Blank's slot
 	slotBad := false // the Blank's slot holds a value Verify rejects
 	i := 0
 	for i < len(all) && !bad {
